@@ -260,6 +260,7 @@ def run(ctx):
         res = ctx.tlc("Formula_MC", "Formula_MC_%s.cfg" % sl, require_cases=100, timeout=1500)
         cases = [c for c in res.cases if not c["exp"]["raise"]]
         sel = ctx.pick(cases, per_slice)
+        res.cases = cases = None          # only the sample is kept in memory
         outs = ctx.pmap(replay_formula, sel)
         ctx.cases_replayed += len(sel)
         for case, bad in zip(sel, outs):
